@@ -441,6 +441,12 @@ fn main() {
             run.tier.pick(2, 3),
         ));
         start_states.push((
+            "notags",
+            vec![Op::Add(0), Op::Add(1), Op::Flush, Op::ReopenWith(IdxDelta::DropTags)],
+            vec![Op::ReopenWith(IdxDelta::AddTagsDropBody), Op::Update(1, 4), Op::Add(3), Op::Flush, Op::Reopen, Op::ReopenWith(IdxDelta::AddTags)],
+            run.tier.pick(2, 3),
+        ));
+        start_states.push((
             "nobody",
             vec![Op::Add(0), Op::Add(1), Op::Flush, Op::ReopenWith(IdxDelta::DropBody)],
             vec![Op::ReopenWith(IdxDelta::AddBodyDropName), Op::Update(1, 5), Op::Add(3), Op::Flush, Op::Reopen, Op::Remove(2)],
